@@ -404,6 +404,59 @@ theorem host_reads_at_the_cursor {p : SWP} (hh : p.hd ≠ 0) (hv : p.v = 1 ∨ p
   | gone n st win rcv => simp only [swOk] at hok; simp [swSys, swHost] at hc; exact absurd hc hok
   | closed => simp [swSys] at hc
 
+/-! ## FIFO over all histories: what the reader of a guest-writer stream gets
+
+`nextUp s` (Proofs/StreamWrite.lean) = the values of the live buffer the host has not taken yet, in order: the
+window of the buffer of the write in flight beyond the host's progress (or beyond the count of a code the
+operation has received and not yet processed), the window of a write not started yet or of the kept buffer, the
+values held by a `write_all` not polled yet.  `s.h.received` = everything the peer (the reader) has received, in
+order.  Values are numbered 1, 2, … in the order the body writes them (`nextId` = the next fresh number). -/
+
+/-- **`stream_writer_fifo`**: every legal step of a reachable guest-writer stream channel (any body instruction,
+any behaviour of the host the rules allow, under `NoUseAfterDropped`) hands the reader exactly the next `j` values
+the guest exposes, in order — nothing else, nothing twice, nothing skipped —: `received' = received ++
+nextUp.take j`; and afterwards the guest exposes exactly the rest (`nextUp' = nextUp.drop j`: the cursor moved by
+exactly what the host took, across BLOCKED / partial transfers / delivery / cancel races / the `write_all` loop) —
+unless no buffer is left (it was handed back to the body as a vector, or dropped: the values are accounted for by
+`untransferred_returned_or_dropped_once`), or the body made a new buffer of fresh values `nextId, nextId+1, …`.
+Induction over all label sequences (`SWReach`), any buffers, all payload kinds, both task ABI versions. -/
+theorem stream_writer_fifo {p : SWP} (hh : p.hd ≠ 0) (hv : p.v = 1 ∨ p.v = 2) {s : ChanSys} {tr : List Ev}
+    (h : SWReach p s tr) (l : CLabel) (hl : SWLegal p s l) {s' : ChanSys} {evs : List Ev} (hs : s.step l = .ok s' evs) :
+    ∃ j, s'.h.received = s.h.received ++ (nextUp s).take j ∧ s.g.nextId ≤ s'.g.nextId ∧
+      (nextUp s' = (nextUp s).drop j ∨ (s'.g.act.isNone = true ∧ s'.g.kept = none) ∨
+       nextUp s' = List.range' s.g.nextId (s'.g.nextId - s.g.nextId)) :=
+  sw_step_fifo hh hv h hl hs
+
+/-- **The reader gets each value at most once, in the order written**: in every reachable state, what the reader
+has received followed by what the guest still exposes is strictly increasing in the write order and consists of
+values the body has written (`< nextId`); in particular no value is received twice. -/
+theorem stream_writer_receives_in_order_once {p : SWP} (hh : p.hd ≠ 0) (hv : p.v = 1 ∨ p.v = 2) {s : ChanSys} {tr : List Ev}
+    (h : SWReach p s tr) :
+    (s.h.received ++ nextUp s).Pairwise (· < ·) ∧ (∀ x ∈ s.h.received ++ nextUp s, x < s.g.nextId) ∧ s.h.received.Nodup := by
+  obtain ⟨h1, h2⟩ := sw_reach_fifo hh hv h
+  refine ⟨h1, h2, ?_⟩
+  have := (List.pairwise_append.1 h1).1
+  exact this.imp (fun hlt => Nat.ne_of_lt hlt)
+
+/-- `nextUp` is what the host is looking at: while the host's end is copying, the values the guest exposes are the
+host's window beyond its progress (with `host_reads_at_the_cursor`: the buffer from the guest's cursor on) -/
+theorem next_up_is_the_hosts_window {p : SWP} (hh : p.hd ≠ 0) (hv : p.v = 1 ∨ p.v = 2) {s : ChanSys} {tr : List Ev}
+    (h : SWReach p s tr) (hc : s.h.e.st = .copying) : nextUp s = s.h.window.drop s.h.e.progress := by
+  obtain ⟨_, _, sh, rfl, hok⟩ := (sw_reach_inv hh hv h).1
+  cases sh with
+  | waiting n k b pr pend rcv => cases k <;> simp [swSys, swHost, nextUp, opNext, OpK.act]
+  | idle n gd hdn kept win rcv => cases hdn <;> simp [swSys, swHost, stOf] at hc
+  | ready n gd hdn b win rcv => cases hdn <;> simp [swSys, swHost, stOf] at hc
+  | allNew n one items gd hdn win rcv => cases hdn <;> simp [swSys, swHost, stOf] at hc
+  | running n one b gs gd hdn win rcv => cases hdn <;> simp [swSys, swHost, stOf] at hc
+  | queued n k b code rcv =>
+    simp only [swOk, codeOk] at hok
+    obtain ⟨_, base, j, rfl, hb, _⟩ := hok
+    rcases hb with rfl | rfl <;>
+      simp [swSys, swHost, Host.End.stAfter, Host.packCode, Host.COMPLETED, Host.DROPPED, Host.BLOCKED, Host.codeBase] at hc <;> omega
+  | gone n st win rcv => simp only [swOk] at hok; simp [swSys, swHost] at hc; exact absurd hc hok
+  | closed => simp [swSys] at hc
+
 /-! ## Non-vacuity -/
 
 /-- a partial write of three values with owned lists: the host takes two, their lists are freed once
